@@ -245,6 +245,7 @@ struct Case {
     w1: bool, // a `send` without `inc` happened: the counter no longer counts the connections
     closed_chan: bool,
     keep: Option<AcceptHandle>,
+    last_raw_seen: usize,
 }
 
 struct Harness {
@@ -305,6 +306,7 @@ impl Case {
             w1: false,
             closed_chan: false,
             keep: None,
+            last_raw_seen: 1,
         })
     }
 
@@ -372,6 +374,9 @@ fn do_conn(h: &Harness, c: &mut Case, tok: usize, with_inc: bool, t3: &mut Vec<(
         Ok(x) => x,
         Err(e) => return format!("setup-error accept {e}"),
     };
+    // no TIME_WAIT litter: tens of thousands of short-lived loopback connections per run
+    let _ = socket2::SockRef::from(&cl).set_linger(Some(Duration::ZERO));
+    let _ = socket2::SockRef::from(&srv).set_linger(Some(Duration::ZERO));
     let _ = cl.set_nonblocking(true);
     let acc = c.accept.as_ref().unwrap();
     let ok = if with_inc { acc.send_tcp(tok, srv).is_some() } else { acc.send_tcp_no_inc(tok, srv) };
@@ -462,6 +467,7 @@ fn do_poll(c: &mut Case, t3: &mut Vec<(String, String)>) -> String {
         return "bad-op".into();
     }
     let raw_before = c.raw();
+    c.last_raw_seen = raw_before;
     c.shared.borrow_mut().evs.clear();
     let stop_handled_before = !c.stops.is_empty(); // a Stop sent before this poll is taken at its very top
     let waker = c.waker.clone();
@@ -478,6 +484,16 @@ fn do_poll(c: &mut Case, t3: &mut Vec<(String, String)>) -> String {
             let d = c.driver.take();
             let _ = catch(std::panic::AssertUnwindSafe(move || drop(d)));
             oracle_c07(c, &evs, stop_handled_before, t3);
+            // a panic is expected only for: a factory future that resolved to Err, a token without a service,
+            // or the W1 underflow; anything else breaks "that service alone is re-created and serving resumes"
+            let fac_err = matches!(evs.last(), Some(Evt::Fac(_, 'E')));
+            let bad_tok = c.queued.front().map_or(false, |id| c.tokens.get(id).map_or(true, |t| *t >= c.n));
+            if !fac_err && !bad_tok && !c.w1 {
+                t3.push((if c.stops.is_empty() { "C07" } else { "C06" }.into(), format!("the worker panicked ({_msg}) after events [{}]", ev_s.join(","))));
+            }
+            if c.w1 && !c.stops.is_empty() && c.last_raw_seen == 0 {
+                t3.push(("NOTE".into(), format!("W1: Stop handled while the shared counter was transiently 0 (sent, not yet counted, already finished): Counter::total() underflowed and the worker panicked ({_msg}); release builds wrap to usize::MAX instead")));
+            }
             format!("ev=[{}] ret=panic", ev_s.join(","))
         }
         Ok(p) => {
@@ -612,6 +628,9 @@ fn oracle_c06(c: &mut Case, evs: &[Evt], closed: &[u32], done: bool, raw_before:
         let bound = t0 + ((c.timeout + tick - 1) / tick + 1) * tick;
         if now >= bound {
             t3.push(("C06".into(), format!("stop received at {t0} ms, shutdown_timeout {} ms, but the worker is still running at {now} ms (bound {bound} ms)", c.timeout)));
+        } else if now > t0 && (now - t0) % tick == 0 && now - t0 >= c.timeout {
+            // polled at a tick at which shutdown_timeout has elapsed: the worker must give up now
+            t3.push(("C06".into(), format!("tick at {now} ms: {} ms since the stop was received >= shutdown_timeout {} ms, but the worker keeps waiting", now - t0, c.timeout)));
         }
     }
     if done {
@@ -635,7 +654,11 @@ fn run(a: &Args) {
     let mut srv_jobs: Vec<(usize, String)> = vec![];
     let mut lines_out: Vec<(String, Option<String>)> = vec![]; // real = None: filled in by a server-level job
     let mut t3_at: Vec<(usize, String, String)> = vec![];
-    for line in in_lines(&a.input) {
+    let all_lines: Vec<String> = in_lines(&a.input).collect();
+    // server-level scenarios (real time, own threads) run first, concurrently
+    let srv_lines: Vec<String> = all_lines.iter().filter(|l| matches!(l.split_whitespace().next(), Some("srv") | Some("sig"))).cloned().collect();
+    let mut srv_results = srvlevel::run_jobs(&srv_lines).into_iter();
+    for line in all_lines {
         let ws: Vec<&str> = line.split_whitespace().collect();
         let mut t3: Vec<(String, String)> = vec![];
         let real: Option<String> = match ws.as_slice() {
@@ -651,7 +674,7 @@ fn run(a: &Args) {
                     None => Some("bad-case".into()),
                 }
             }
-            ["srv", ..] => {
+            ["srv", ..] | ["sig", ..] => {
                 srv_jobs.push((lines_out.len(), line.clone()));
                 None
             }
@@ -762,20 +785,23 @@ fn run(a: &Args) {
     if let Some(c) = case.take() {
         let _ = catch(std::panic::AssertUnwindSafe(move || drop(c)));
     }
-    // server-level scenarios: real time, run concurrently
-    let results = srvlevel::run_jobs(&srv_jobs.iter().map(|(_, l)| l.clone()).collect::<Vec<_>>());
-    for ((idx, _), (obs, fails)) in srv_jobs.iter().zip(results) {
+    for ((idx, _), (obs, fails)) in srv_jobs.iter().zip(&mut srv_results) {
         lines_out[*idx].1 = Some(obs);
         for m in fails {
             t3_at.push((*idx, "C06".into(), m));
         }
     }
+    t3_at.sort_by_key(|x| x.0);
     let mut ti = 0;
     for (i, (op, real)) in lines_out.iter().enumerate() {
         rep.obs(op, real.as_deref().unwrap_or("bad-op"));
         while ti < t3_at.len() && t3_at[ti].0 == i {
             let (_, p, m) = &t3_at[ti];
-            rep.t3(p, m);
+            if p == "NOTE" {
+                rep.note(m);
+            } else {
+                rep.t3(p, m);
+            }
             ti += 1;
         }
     }
@@ -786,9 +812,386 @@ fn run(a: &Args) {
 // server level (C06): the real public API in real time
 // ------------------------------------------------------------------------------------------------
 mod srvlevel {
-    /// run every `srv …` line; result per line: (observation, oracle failures)
+    //! `srv <name> workers=W timeout=S mode=g|f holds=<ms|n>,… [second=g|f] [drop=1] [paused=1]`
+    //!   the real `Server::build()…run()` + `ServerHandle::stop`, clients holding connections open;
+    //!   observation `stop=<k|dropped> server=<k> second=<k|-> after=<refused|unserved>` with
+    //!   k = floor((t_ms + 400) / 1000) of the resolution time measured from the stop call.
+    //! `sig <name> sig=int|term|quit timeout=S hold=<ms|n>`
+    //!   a child process running the server with OS signals enabled; observation `exit=<k>`.
+    use std::{
+        io::{Read, Write},
+        sync::{
+            atomic::{AtomicUsize, Ordering},
+            Arc,
+        },
+        time::{Duration, Instant},
+    };
+
+    use super::kv;
+
+    fn bucket(ms: u128) -> u128 {
+        (ms + 400) / 1000
+    }
+
+    fn parse_holds(t: &str) -> Option<Vec<Option<u64>>> {
+        if t == "-" {
+            return Some(vec![]);
+        }
+        t.split(',').map(|x| if x == "n" { Some(None) } else { super::num(x).map(|v| Some(v as u64)) }).collect()
+    }
+
+    async fn echo_ok(c: &mut tokio::net::TcpStream, tag: u8) -> bool {
+        use tokio::io::{AsyncReadExt, AsyncWriteExt};
+        if c.write_all(&[tag]).await.is_err() {
+            return false;
+        }
+        let mut b = [0u8; 1];
+        matches!(tokio::time::timeout(Duration::from_millis(400), c.read_exact(&mut b)).await, Ok(Ok(_)) if b[0] == tag)
+    }
+
+    fn server(workers: usize, timeout: u64, signals: bool, served: Arc<AtomicUsize>) -> std::io::Result<(actix_server::Server, std::net::SocketAddr)> {
+        use actix_service::fn_service;
+        use tokio::io::{AsyncReadExt, AsyncWriteExt};
+        let lst = std::net::TcpListener::bind("127.0.0.1:0")?;
+        let addr = lst.local_addr()?;
+        let mut b = actix_server::Server::build().workers(workers).shutdown_timeout(timeout);
+        if !signals {
+            b = b.disable_signals();
+        }
+        let srv = b
+            .listen("verif", lst, move || {
+                let served = served.clone();
+                fn_service(move |mut stream: actix_rt::net::TcpStream| {
+                    served.fetch_add(1, Ordering::SeqCst);
+                    async move {
+                        let mut buf = [0u8; 64];
+                        loop {
+                            match stream.read(&mut buf).await {
+                                Ok(0) | Err(_) => break,
+                                Ok(n) => {
+                                    if stream.write_all(&buf[..n]).await.is_err() {
+                                        break;
+                                    }
+                                }
+                            }
+                        }
+                        Ok::<_, ()>(())
+                    }
+                })
+            })?
+            .run();
+        Ok((srv, addr))
+    }
+
+    fn run_srv(line: &str) -> (String, Vec<String>) {
+        let ws: Vec<&str> = line.split_whitespace().collect();
+        let workers = kv(&ws, "workers").and_then(super::num).unwrap_or(1);
+        let timeout = kv(&ws, "timeout").and_then(super::num).unwrap_or(1) as u64;
+        let graceful = match kv(&ws, "mode") {
+            Some("g") => true,
+            Some("f") => false,
+            _ => return ("bad-op".into(), vec![]),
+        };
+        let holds = match kv(&ws, "holds").and_then(parse_holds) {
+            Some(h) => h,
+            None => return ("bad-op".into(), vec![]),
+        };
+        let second = match kv(&ws, "second") {
+            None => None,
+            Some("g") => Some(true),
+            Some("f") => Some(false),
+            _ => return ("bad-op".into(), vec![]),
+        };
+        let dropfut = kv(&ws, "drop") == Some("1");
+        let paused = kv(&ws, "paused") == Some("1");
+        if workers == 0 || workers > 4 || holds.len() > 6 {
+            return ("bad-op".into(), vec![]);
+        }
+        let rt = tokio::runtime::Builder::new_current_thread().enable_all().build().unwrap();
+        let mut fails: Vec<String> = vec![];
+        let obs = rt.block_on(async {
+            let served = Arc::new(AtomicUsize::new(0));
+            let (srv, addr) = match server(workers, timeout, false, served.clone()) {
+                Ok(x) => x,
+                Err(e) => return format!("setup-error {e}"),
+            };
+            let handle = srv.handle();
+            let srv_task = tokio::spawn(srv);
+            // clients: connect one after the other (round-robin over the workers), prove each is being served
+            let mut clients = vec![];
+            for (i, _) in holds.iter().enumerate() {
+                let mut c = match tokio::net::TcpStream::connect(addr).await {
+                    Ok(c) => c,
+                    Err(e) => return format!("setup-error connect {e}"),
+                };
+                if !echo_ok(&mut c, i as u8 + 1).await {
+                    return "setup-error echo".into();
+                }
+                clients.push(c);
+            }
+            // let the accept thread finish `inc_counter` for the last dispatch (window W1 is C06's stated exception)
+            tokio::time::sleep(Duration::from_millis(50)).await;
+            if paused {
+                handle.pause().await;
+            }
+            let served_before = served.load(Ordering::SeqCst);
+            let t0 = Instant::now();
+            let stop_fut = handle.stop(graceful);
+            let stop_task = if dropfut {
+                drop(stop_fut);
+                None
+            } else {
+                Some(tokio::spawn(async move {
+                    stop_fut.await;
+                    t0.elapsed().as_millis()
+                }))
+            };
+            let second_task = second.map(|g2| {
+                let f = handle.stop(g2);
+                tokio::spawn(async move {
+                    f.await;
+                    t0.elapsed().as_millis()
+                })
+            });
+            // the clients: an echo 200 ms into the grace period, then hold until the release time
+            let mut client_tasks = vec![];
+            for (i, (mut c, rel)) in clients.into_iter().zip(holds.iter().cloned()).enumerate() {
+                client_tasks.push(tokio::spawn(async move {
+                    tokio::time::sleep_until((t0 + Duration::from_millis(200)).into()).await;
+                    let alive = echo_ok(&mut c, 100 + i as u8).await;
+                    match rel {
+                        Some(ms) => {
+                            tokio::time::sleep_until((t0 + Duration::from_millis(ms)).into()).await;
+                            drop(c);
+                        }
+                        None => {
+                            tokio::time::sleep_until((t0 + Duration::from_millis(timeout * 1000 + 3500)).into()).await;
+                            drop(c);
+                        }
+                    }
+                    alive
+                }));
+            }
+            let cap = Duration::from_millis(timeout * 1000 + 3000);
+            let t_server = match tokio::time::timeout(cap, srv_task).await {
+                Ok(_) => Some(t0.elapsed().as_millis()),
+                Err(_) => None,
+            };
+            let t_stop = match stop_task {
+                None => None,
+                Some(t) => match tokio::time::timeout(Duration::from_millis(1500), t).await {
+                    Ok(Ok(ms)) => Some(ms),
+                    _ => None,
+                },
+            };
+            let t_second = match second_task {
+                None => None,
+                Some(t) => match tokio::time::timeout(Duration::from_millis(1500), t).await {
+                    Ok(Ok(ms)) => Some(Some(ms)),
+                    _ => Some(None),
+                },
+            };
+            // nothing is served after completion
+            let after = match tokio::time::timeout(Duration::from_millis(300), tokio::net::TcpStream::connect(addr)).await {
+                Ok(Ok(mut c)) => {
+                    let ok = echo_ok(&mut c, 77).await;
+                    if ok { "served" } else { "unserved" }
+                }
+                _ => "refused",
+            };
+            tokio::time::sleep(Duration::from_millis(50)).await;
+            let served_after = served.load(Ordering::SeqCst);
+            let mut alive = vec![];
+            for t in client_tasks {
+                // the tasks of never-released clients are still sleeping: only look at those that are done or due
+                if t.is_finished() {
+                    alive.push(t.await.unwrap_or(false));
+                } else {
+                    t.abort();
+                    alive.push(true);
+                }
+            }
+            // ---- T3: the statement of C06 on the measured behaviour
+            let t_ms = timeout as u128 * 1000;
+            match t_server {
+                None => fails.push(format!("the Server future did not resolve within {} ms of stop({graceful})", cap.as_millis())),
+                Some(ts) => {
+                    if !dropfut && t_stop.is_none() {
+                        fails.push(format!("the Server future resolved ({ts} ms) but the stop({graceful}) future did not"));
+                    }
+                    if let Some(None) = t_second {
+                        fails.push("the future of the second stop() did not resolve".into());
+                    }
+                    let all_done: Option<u128> = holds.iter().map(|h| h.map(|x| x as u128)).try_fold(0u128, |m, h| h.map(|x| m.max(x)));
+                    let need = match all_done {
+                        Some(x) => x.min(t_ms),
+                        None => t_ms,
+                    };
+                    let done_at = t_stop.unwrap_or(ts);
+                    if graceful && second != Some(false) && !holds.is_empty() && done_at + 60 < need {
+                        fails.push(format!("graceful stop completed after {done_at} ms although connections were in progress until {} and shutdown_timeout is {t_ms} ms", all_done.map_or("never".to_string(), |x| format!("{x} ms"))));
+                    }
+                    if !graceful && done_at > 700 {
+                        fails.push(format!("forced stop took {done_at} ms to complete (it must not wait for connections)"));
+                    }
+                    let bound = ((t_ms + 999) / 1000 + 1) * 1000 + 800;
+                    if ts > bound {
+                        fails.push(format!("stop completed after {ts} ms, bound is {bound} ms"));
+                    }
+                    if graceful && second != Some(false) && alive.iter().any(|a| !*a) {
+                        fails.push("a connection in progress was no longer served 200 ms into a graceful shutdown".into());
+                    }
+                }
+            }
+            if after == "served" || served_after > served_before {
+                fails.push(format!("a connection was served after the shutdown completed ({} -> {})", served_before, served_after));
+            }
+            let k = |t: Option<u128>| t.map_or("never".to_string(), |ms| bucket(ms).to_string());
+            format!(
+                "stop={} server={} second={} after={}",
+                if dropfut { "dropped".to_string() } else { k(t_stop) },
+                k(t_server),
+                match t_second {
+                    None => "-".to_string(),
+                    Some(x) => k(x),
+                },
+                if after == "served" { "served" } else { "none" }
+            )
+        });
+        rt.shutdown_timeout(Duration::from_millis(200));
+        (obs, fails)
+    }
+
+    /// child process: a server with OS signals enabled; prints its port, exits when the server future resolves
+    pub fn sigchild(timeout: u64) {
+        let served = Arc::new(AtomicUsize::new(0));
+        let sys = actix_rt::System::new();
+        sys.block_on(async move {
+            let (srv, addr) = server(1, timeout, true, served).expect("server");
+            println!("{}", addr.port());
+            std::io::stdout().flush().unwrap();
+            let _ = srv.await;
+        });
+        std::process::exit(0);
+    }
+
+    fn run_sig(line: &str) -> (String, Vec<String>) {
+        let ws: Vec<&str> = line.split_whitespace().collect();
+        let (signame, graceful) = match kv(&ws, "sig") {
+            Some("int") => ("INT", false),
+            Some("term") => ("TERM", true),
+            Some("quit") => ("QUIT", false),
+            _ => return ("bad-op".into(), vec![]),
+        };
+        let timeout = kv(&ws, "timeout").and_then(super::num).unwrap_or(1) as u64;
+        let hold = match kv(&ws, "hold").and_then(parse_holds) {
+            Some(h) if h.len() == 1 => h[0],
+            _ => return ("bad-op".into(), vec![]),
+        };
+        let exe = match std::env::current_exe() {
+            Ok(e) => e,
+            Err(e) => return (format!("setup-error {e}"), vec![]),
+        };
+        let mut child = match std::process::Command::new(exe)
+            .args(["sigchild", &timeout.to_string()])
+            .stdout(std::process::Stdio::piped())
+            .stderr(std::process::Stdio::null())
+            .spawn()
+        {
+            Ok(c) => c,
+            Err(e) => return (format!("setup-error spawn {e}"), vec![]),
+        };
+        let mut port = String::new();
+        {
+            let out = child.stdout.as_mut().unwrap();
+            let mut b = [0u8; 1];
+            while let Ok(1) = out.read(&mut b) {
+                if b[0] == b'\n' {
+                    break;
+                }
+                port.push(b[0] as char);
+            }
+        }
+        let port: u16 = match port.trim().parse() {
+            Ok(p) => p,
+            Err(_) => {
+                let _ = child.kill();
+                return ("setup-error port".into(), vec![]);
+            }
+        };
+        let mut c = match std::net::TcpStream::connect(("127.0.0.1", port)) {
+            Ok(c) => c,
+            Err(e) => {
+                let _ = child.kill();
+                return (format!("setup-error connect {e}"), vec![]);
+            }
+        };
+        let _ = c.write_all(&[9]);
+        let mut b = [0u8; 1];
+        let _ = c.set_read_timeout(Some(Duration::from_millis(1000)));
+        if c.read_exact(&mut b).is_err() {
+            let _ = child.kill();
+            return ("setup-error echo".into(), vec![]);
+        }
+        std::thread::sleep(Duration::from_millis(100)); // let the signal handlers be installed
+        let t0 = Instant::now();
+        let _ = std::process::Command::new("kill").args([&format!("-{signame}"), &child.id().to_string()]).status();
+        let cap = Duration::from_millis(timeout * 1000 + 3500);
+        let mut released = false;
+        let mut exit_ms = None;
+        let mut c = Some(c);
+        while t0.elapsed() < cap {
+            if let Some(ms) = hold {
+                if !released && t0.elapsed() >= Duration::from_millis(ms) {
+                    c = None;
+                    released = true;
+                }
+            }
+            if let Ok(Some(_)) = child.try_wait() {
+                exit_ms = Some(t0.elapsed().as_millis());
+                break;
+            }
+            std::thread::sleep(Duration::from_millis(10));
+        }
+        drop(c);
+        let mut fails = vec![];
+        match exit_ms {
+            None => {
+                let _ = child.kill();
+                let _ = child.wait();
+                fails.push(format!("the server process did not exit within {} ms of SIG{signame}", cap.as_millis()));
+            }
+            Some(ms) => {
+                let t_ms = timeout as u128 * 1000;
+                let need = hold.map_or(t_ms, |h| (h as u128).min(t_ms));
+                if graceful && ms + 60 < need {
+                    fails.push(format!("SIGTERM: the process exited after {ms} ms with a connection in progress until {:?}, shutdown_timeout {t_ms} ms", hold));
+                }
+                if !graceful && ms > 1000 {
+                    fails.push(format!("SIG{signame}: forced shutdown took {ms} ms"));
+                }
+            }
+        }
+        (format!("exit={}", exit_ms.map_or("never".to_string(), |ms| ((ms + 100) / 1000).to_string())), fails)
+    }
+
+    /// run every `srv …` / `sig …` line concurrently; result per line: (observation, oracle failures)
     pub fn run_jobs(lines: &[String]) -> Vec<(String, Vec<String>)> {
-        lines.iter().map(|_| ("bad-op".to_string(), vec![])).collect()
+        let mut out = vec![];
+        for batch in lines.chunks(12) {
+            let handles: Vec<_> = batch
+                .iter()
+                .cloned()
+                .map(|l| {
+                    std::thread::spawn(move || {
+                        let r = std::panic::catch_unwind(|| if l.split_whitespace().next() == Some("sig") { run_sig(&l) } else { run_srv(&l) });
+                        r.unwrap_or_else(|_| ("panic".to_string(), vec!["the server-level scenario panicked".to_string()]))
+                    })
+                })
+                .collect();
+            out.extend(handles.into_iter().map(|h| h.join().unwrap_or_else(|_| ("panic".to_string(), vec![]))));
+        }
+        out
     }
 }
 
@@ -1139,6 +1542,49 @@ mod gen {
                 random_case(&mut *w, &mut rng, &format!("r{c}"), prop, if c % 2 == 0 { 3 } else { 1 }, 3);
             }
         } else {
+            // server level: the real public API in real time (a few scenarios; more in the thorough tier)
+            writeln!(w, "case srvlevel n=1 timeout=0").unwrap();
+            let mut k = 0;
+            let mut srv = |w: &mut dyn Write, rest: &str| {
+                writeln!(w, "srv s{k} {rest}").unwrap();
+                k += 1;
+            };
+            srv(&mut *w, "workers=1 timeout=1 mode=g holds=-");
+            srv(&mut *w, "workers=1 timeout=2 mode=g holds=300");
+            srv(&mut *w, "workers=1 timeout=1 mode=g holds=n");
+            srv(&mut *w, "workers=1 timeout=2 mode=f holds=n");
+            srv(&mut *w, "workers=1 timeout=2 mode=g holds=300 second=g");
+            srv(&mut *w, "workers=1 timeout=2 mode=g holds=300 drop=1");
+            srv(&mut *w, "workers=1 timeout=2 mode=g holds=300 paused=1");
+            srv(&mut *w, "workers=2 timeout=3 mode=g holds=300,1300");
+            srv(&mut *w, "workers=2 timeout=1 mode=f holds=n,300 second=f");
+            srv(&mut *w, "workers=1 timeout=0 mode=g holds=n");
+            srv(&mut *w, "workers=2 timeout=2 mode=g holds=n,300,1300");
+            srv(&mut *w, "workers=1 timeout=2 mode=f holds=- drop=1");
+            if thorough {
+                for workers in [1usize, 2] {
+                    for timeout in [0usize, 1, 2] {
+                        for mode in ["g", "f"] {
+                            for holds in ["-", "300", "n", "1300", "300,n", "1300,300", "300,300,n"] {
+                                for extra in ["", "second=g", "second=f", "drop=1", "paused=1", "paused=1 second=f drop=1"] {
+                                    srv(&mut *w, &format!("workers={workers} timeout={timeout} mode={mode} holds={holds} {extra}"));
+                                }
+                            }
+                        }
+                    }
+                }
+                let mut j = 0;
+                for sig in ["int", "term", "quit"] {
+                    for (timeout, hold) in [(1, "n"), (2, "300"), (2, "n")] {
+                        writeln!(w, "sig g{j} sig={sig} timeout={timeout} hold={hold}").unwrap();
+                        j += 1;
+                    }
+                }
+                // malformed
+                writeln!(w, "srv bad1 workers=1 timeout=1 mode=x holds=-").unwrap();
+                writeln!(w, "sig bad2 sig=hup timeout=1 hold=n").unwrap();
+            }
+            writeln!(w, "srv bad0 workers=0 timeout=1 mode=g holds=-").unwrap();
             c06_enumerate(&mut *w, thorough);
             let nr = if thorough { 20000 } else { 1500 };
             for c in 0..nr {
@@ -1150,6 +1596,11 @@ mod gen {
 }
 
 fn main() {
+    let argv: Vec<String> = std::env::args().collect();
+    if argv.get(1).map(|s| s.as_str()) == Some("sigchild") {
+        srvlevel::sigchild(argv.get(2).and_then(|t| t.parse().ok()).unwrap_or(1));
+        return;
+    }
     let a = parse_args();
     match a.cmd.as_str() {
         "gen" => gen::gen(&a),
